@@ -1,4 +1,6 @@
 import BiotiteModel.Proofs.C05
+import BiotiteModel.Proofs.C05Ext
+import BiotiteModel.Proofs.C05Float
 import BiotiteModel.Gen.C05
 /-!
 # C05 — property theorems (BinaryCIF encodings are invertible)
@@ -165,6 +167,182 @@ theorem C05_packing_rejects_negative (bc : Nat) (hbc : bc = 1 ∨ bc = 2) (x : I
   rcases hbc with rfl | rfl <;>
     simp [packEncode, hall, packedType, packAll, packOne, hx, DType.lo, DType.signed, bind, Except.bind]
 
+/-! ## Floating point data (exact rational model) -/
+
+/-- Fixed-point encoding is within half a fixed-point step (`1/(2·factor)`) of the original
+whenever the scaled value fits the int32 it is stored in — the guard `compress()` applies. -/
+theorem C05_fixed (f x : Rat) (hf : 0 < f) (hfit : fitsFixed f x = true) :
+    ∃ k, fixedEncode f x = some k ∧
+    -(1/2 : Rat) ≤ (fixedDecode f k - x) * f ∧ (fixedDecode f k - x) * f ≤ 1/2 := by
+  refine ⟨fixedRound f x, ?_, fixed_err f x hf⟩
+  simp [fixedEncode, fixedRound_inRange f x hfit]
+
+/-- **Defect of the bare encoding (`encoding.pyx`, known finding).**  Without the guard a value
+whose scaled magnitude exceeds int32 has no representation; the real code stores `INT_MIN`
+silently instead of raising. -/
+theorem C05_fixed_overflow_defect : fixedEncode 10 300000000 = none := by
+  decide +kernel
+
+/-- Interval quantisation maps every value of `[min, max]` to the next grid point at or above
+it: the decoded value is at most one step above the original (`searchsorted(side="left")`). -/
+theorem C05_interval (mn mx x : Rat) (n : Nat) (hn : 2 ≤ n) (hlt : mn < mx) (hx1 : mn ≤ x) (hx2 : x ≤ mx) :
+    0 ≤ intervalDecode mn mx n (intervalEncode mn mx n x) - x ∧
+    intervalDecode mn mx n (intervalEncode mn mx n x) - x < (mx - mn) / ((n : Rat) - 1) :=
+  interval_err mn mx x n hn hlt hx1 hx2
+
+/-! ## Strings and bytes -/
+
+/-- String-array encoding (first-occurrence dictionary + indices) is lossless for every list
+of strings. -/
+theorem C05_string (ss : List String) :
+    stringDecode (stringEncode ss).1 (stringEncode ss).2 = .ok ss := by
+  unfold stringEncode
+  exact stringDecode_map _ _ (fun s hs => (mem_firstOcc s ss).mpr hs)
+
+/-- Byte-array encoding (little endian two's complement) is lossless for every in-range array
+of every integer type. -/
+theorem C05_bytes (t : DType) (xs : List Int) (h : ∀ x ∈ xs, t.inRange x) :
+    bytesDecode t (bytesEncode t xs) = .ok xs := by
+  unfold bytesDecode
+  have hl := bytesEncode_length t xs
+  have hmod : (bytesEncode t xs).length % (t.bits / 8) = 0 := by rw [hl]; exact Nat.mul_mod_left _ _
+  simp only [hmod, ne_eq, not_true_eq_false, if_false]
+  rw [bytesDecode_go t xs h _ ?_]
+  rw [hl]
+  exact Nat.le_mul_of_pos_right _ (bits_div_pos t)
+
+/-! ## Chains -/
+
+theorem delta_sound (t : DType) (ht : t ≠ .i64) (xs : List Int) (hr : ∀ x ∈ xs, t.inRange x)
+    (o : Int) (ds : List Int) (h : deltaEncode t xs = .ok (o, ds)) :
+    deltaDecode t o ds = xs ∧ ∀ d ∈ ds, DType.i32.inRange d := by
+  have hne : xs ≠ [] := by intro h0; subst h0; simp [deltaEncode] at h
+  obtain ⟨o', ds', he, hd⟩ := C05_delta_wrap t ht xs hne hr
+  rw [he] at h
+  injection h with h; injection h with h1 h2; subst h1; subst h2
+  refine ⟨hd, ?_⟩
+  cases xs with
+  | nil => exact absurd rfl hne
+  | cons a l =>
+    simp only [deltaEncode] at he
+    injection he with he; injection he with _ he2
+    rw [← he2]
+    intro d hd'
+    -- every element of diffsW is a wrap into int32
+    have : ∀ (prev : Int) (ys : List Int), ∀ d ∈ diffsW t prev ys, DType.i32.inRange d := by
+      intro prev ys
+      induction ys generalizing prev with
+      | nil => intro d hd; simp [diffsW] at hd
+      | cons y ys ih =>
+        intro d hd
+        simp only [diffsW, List.mem_cons] at hd
+        rcases hd with rfl | hd
+        · exact wrap_inRange _ _
+        · exact ih _ _ hd
+    exact this _ _ d hd'
+
+theorem rle_sound (t1 : DType) (s1 : List Int) (hr : ∀ x ∈ s1, t1.supported.inRange x)
+    (e : List Int) (h : rleEncode t1 none s1 = .ok e) :
+    rleDecode t1.supported (some s1.length) e = some (.ok s1) := by
+  have hne : s1 ≠ [] := by
+    intro h0; subst h0
+    have := C05_rle_empty t1
+    rw [this] at h; cases h
+  obtain ⟨e', he, hd, _⟩ := C05_rle t1 s1 hne hr
+  rw [he] at h; injection h with h; subst h; exact hd
+
+theorem pack_sound (bc : Nat) (s2 : List Int) (e : List Int) (pt : DType)
+    (h : packEncode bc (some (s2.all (fun x => decide (0 ≤ x)))) s2 = some (.ok e))
+    (hpt : packedType bc (s2.all (fun x => decide (0 ≤ x))) = .ok pt) :
+    packDecode pt s2.length e = .ok s2 := by
+  have hbc : bc = 1 ∨ bc = 2 := by
+    unfold packedType at hpt
+    split at hpt <;> first | (left; rfl) | (right; rfl) | cases hpt
+  have hr : ∀ x ∈ s2, DType.i32.inRange x := by
+    by_contra hcon
+    have : ¬ (s2.all (fun x => decide (DType.i32.inRange x)) = true) := by simpa using hcon
+    simp [packEncode, this] at h
+  have hu : (s2.all (fun x => decide (0 ≤ x))) = true → ∀ x ∈ s2, 0 ≤ x := by
+    intro hall; simpa using hall
+  obtain ⟨pt', e', hpt', he', hd⟩ := C05_packing bc hbc _ s2 hr hu
+  rw [hpt'] at hpt; injection hpt with hpt; subst hpt
+  rw [he'] at h; injection h with h; injection h with h; subst h
+  exact hd
+
+theorem packStage_sound (p : Option Nat) (s2 : List Int) (pt : Option DType) (e : List Int)
+    (h : packStage p s2 = some (pt, e)) : unpackStage pt s2.length e = some s2 := by
+  unfold packStage at h
+  split at h
+  · injection h with h; injection h with h1 h2; subst h1; subst h2; rfl
+  · simp only at h
+    split at h
+    · cases h
+    split at h
+    · rename_i e' pt' hpe hpt
+      injection h with h; injection h with h1 h2; subst h1; subst h2
+      simp [unpackStage, pack_sound _ s2 e' pt' hpe hpt]
+    · cases h
+
+theorem rleStage_sound (on : Bool) (t1 : DType) (s1 s2 : List Int)
+    (hr : ∀ x ∈ s1, t1.supported.inRange x) (h : rleStage on t1 s1 = some s2) :
+    unrleStage on t1 s1.length s2 = some s1 := by
+  unfold rleStage at h
+  cases on with
+  | false => simp at h; subst h; simp [unrleStage]
+  | true =>
+    simp only [if_true] at h
+    split at h
+    · rename_i e he
+      injection h with h; subst h
+      simp [unrleStage, rle_sound t1 s1 hr _ he]
+    · cases h
+
+/-- **Every** chain `compress()` can choose for an integer column — `{delta?} × {run-length?} ×
+{packing: none, 1 byte, 2 bytes}` followed by the byte array — decodes to the original array,
+for all six integer types and all in-range arrays.  The size-based choice among the candidates
+is deliberately not modelled (so the theorem survives any change of the heuristic). -/
+theorem C05_compress_candidates_sound (c : Chain)
+    (t : DType) (ht : t ≠ .i64) (xs : List Int) (hr : ∀ x ∈ xs, t.inRange x)
+    (e : Encoded) (h : chainEncode c t xs = some e) : chainDecode c e = some xs := by
+  have hsup : t.supported = t := by cases t <;> first | rfl | exact absurd rfl ht
+  obtain ⟨d, r, p⟩ := c
+  simp only [chainEncode] at h
+  split at h
+  · cases h
+  · rename_i origin s1 t1 hd
+    split at h
+    · cases h
+    · rename_i s2 hrl
+      split at h
+      · cases h
+      · rename_i pt e' hpk
+        injection h with h; subst h
+        have hps := packStage_sound p s2 pt e' hpk
+        -- facts from the delta stage
+        have hfacts : (∀ x ∈ s1, t1.supported.inRange x) ∧ t1 = (if d then DType.i32 else t) ∧
+            (if d then deltaDecode t origin s1 = xs else s1 = xs) := by
+          unfold deltaStage at hd
+          cases d with
+          | false =>
+            simp at hd
+            obtain ⟨_, h2, h3⟩ := hd
+            subst h2; subst h3
+            simp [hsup]; exact hr
+          | true =>
+            simp only [if_true] at hd
+            split at hd
+            · rename_i o ds hde
+              injection hd with hd; injection hd with h1 hd; injection hd with h2 h3
+              subst h1; subst h2; subst h3
+              obtain ⟨hdd, hdr⟩ := delta_sound t ht xs hr _ _ hde
+              exact ⟨hdr, by simp, by simpa using hdd⟩
+            · cases hd
+        obtain ⟨hr1, ht1, hdec⟩ := hfacts
+        have hrs := rleStage_sound r t1 s1 s2 hr1 hrl
+        simp only [chainDecode, hps]
+        rw [← ht1, hrs]
+        cases d <;> simp_all
+
 /-! ## Obligations on the tables regenerated from `encoding.pyx` on every run -/
 
 /-- numpy dtype string of a model dtype, little endian as the format prescribes. -/
@@ -185,6 +363,13 @@ theorem C05_gen_typecodes :
     ∀ t ∈ [DType.i8, .i16, .i32, .u8, .u16, .u32],
       Gen.C05.typeCodeToDtype.lookup (typeCodeName t) = some (dtypeString t) := by
   decide
+
+/-! ## Non-vacuity (float / string / byte part) -/
+
+example : fitsFixed 1000 (12345/1000) = true ∧ fixedEncode 1000 (12345/1000) = some 12345 := by decide +kernel
+example : intervalEncode 0 10 11 (7/2) = 4 ∧ intervalDecode 0 10 11 4 = 4 := by decide +kernel
+example : stringEncode ["b", "a", "b", ""] = (["b", "a", ""], [0, 1, 0, 2]) := by decide
+example : bytesEncode .i16 [-2, 258] = [254, 255, 2, 1] := by decide
 
 /-! ## Non-vacuity: the hypotheses are met by concrete, non-trivial arrays. -/
 
